@@ -207,17 +207,19 @@ func runC02(c *eng.Ctx) {
 	ruleISRPersisted(c)
 	c.Floor(2)
 	c.Rule("R02.8", "K5")
+	ruleClearEarliestStaysInsideTheLog(c)
 	ruleEpochCacheShapes(c)
 	c.Floor(9)
 
 	c.Rule("R02.4", "K1")
+	ruleEpochQueryTellsNotFoundFromMinusOne(c)
 	ruleLeaderServesOwnEpoch(c)
 	if fn := c.Fn("server.(*partition).handleLeaderOffsetRequest"); fn != nil {
 		lo := eng.CallsIn(fn, cl+"CommitLog.LastOffsetForLeaderEpoch")
 		ok := len(lo) == 1 && eng.LoadNamed("LeaderEpoch", eng.Call(0, "server/protocol.UnmarshalLeaderEpochOffsetRequest"))(eng.AllArgs(lo[0].Common())[1])
 		c.Check(ok, "epoch query answered for the requested epoch", p.Pos(fn.Pos()), "LastOffsetForLeaderEpoch(req.LeaderEpoch)", "the leader does not answer with the last offset of the epoch the follower asked about")
 	}
-	if fn := c.Fn(cl + "(*leaderEpochCache).LastOffsetForLeaderEpoch"); fn != nil {
+	if fn := epochQueryFn(c); fn != nil {
 		fe := eng.CallsIn(fn, cl+"leaderEpochCache.findEpoch")
 		ok := len(fe) == 1 && eng.Bin(token.ADD, eng.Param("epoch"), eng.IntConst(1))(fe[0].Common().Args[1])
 		c.Check(ok, "last offset of an epoch = start of the next one", p.Pos(fn.Pos()), "findEpoch(epoch + 1)", "LastOffsetForLeaderEpoch does not look up epoch + 1")
